@@ -94,10 +94,11 @@ def main():
     if ok_demo and ok_tests is not False:
         d = os.path.join(VERIF, "seeded", sid)
         os.makedirs(d, exist_ok=True)
-        shutil.copy(patch, os.path.join(d, "patch.diff"))
-        shutil.copy(dm, os.path.join(d, "demo.py"))
-        if os.path.exists(notes):
-            shutil.copy(notes, os.path.join(d, "notes.md"))
+        if os.path.abspath(cdir) != os.path.abspath(d):
+            shutil.copy(patch, os.path.join(d, "patch.diff"))
+            shutil.copy(dm, os.path.join(d, "demo.py"))
+            if os.path.exists(notes):
+                shutil.copy(notes, os.path.join(d, "notes.md"))
         old = {}
         mp = os.path.join(d, "meta.json")
         if os.path.exists(mp):
